@@ -156,3 +156,122 @@ Fixpoint chain_ok (k : nat) (chain : list (list nat)) : Prop :=
 Definition in_range (m : Z) (vs : list Z) : Prop := Forall (fun v => 0 <= v <= sf_max m) vs.
 
 Definition seq_values (vs : list Z) (k : nat) : list Z := if Nat.eqb (length vs) k then vs else repeat (hd 0 vs) k.
+
+(* ======================= round 4: WORLDS — several record objects over shared memory =======================
+   The API hands out point records that the caller keeps alive side by side: chunks of one reader, las.points and
+   a copy, las[...] selections, records made by from_point_record / convert / copy, records over one bytearray
+   or one mapped file, SubFieldViews kept in a variable.  Each is (memory, positions):
+     own memory : a record built from bytes, laspy.read, every chunk of read_points / chunk_iterator, copy(),
+                  rec[mask] / rec[index list], from_point_record, convert                       (WNew, WGather, WConv)
+     a view     : rec[slice], las[slice], a record object built on rec.array, from_buffer on the same buffer,
+                  laspy.mmap of the same file, a kept SubFieldView                               (WSlice)
+   An operation of the single-record model (`step`) on object a acts on the points a addresses and is written
+   through to a's memory; an operation that makes the record longer gives it NEW memory (np.append). *)
+Definition gather_col (bs : list Z) (pos : list nat) : list Z := map (fun i => nth i bs 0) pos.
+Definition gather (r : prec) (pos : list nat) : prec := map (fun cb => (fst cb, gather_col (snd cb) pos)) r.
+Definition scatter_col (bs : list Z) (pos : list nat) (vs : list Z) : list Z :=
+  fold_left (fun acc pv => set_nth acc (fst pv) (snd pv)) (combine pos vs) bs.
+Definition scatter (r : prec) (pos : list nat) (v : prec) : prec :=
+  map (fun cb => (fst cb, scatter_col (snd cb) pos (col_get v (fst cb)))) r.
+
+Fixpoint upd {A : Type} (l : list A) (i : nat) (x : A) : list A :=
+  match l, i with
+  | [], _ => []
+  | _ :: r, O => x :: r
+  | a :: r, S k => a :: upd r k x
+  end.
+
+Definition wbuf := (Z * prec)%type.               (* point format, packed columns *)
+Definition wobj := (nat * list nat)%type.         (* memory, the positions the object addresses in it *)
+Definition world := (list wbuf * list wobj)%type.
+
+Definition buf_at (w : world) (k : nat) : wbuf := nth k (fst w) (0, []).
+Definition obj_at (w : world) (a : nat) : wobj := nth a (snd w) (0%nat, []).
+Definition obj_fmt (w : world) (a : nat) : Z := fst (buf_at w (fst (obj_at w a))).
+Definition obj_read (w : world) (a : nat) : prec := gather (snd (buf_at w (fst (obj_at w a)))) (snd (obj_at w a)).
+
+Definition zero_rec (fmt : Z) (n : nat) : prec := map (fun c => (c, repeat 0 n)) (fmt_cols fmt).
+
+Inductive wop :=
+| WNew (fmt : Z) (r : prec)                                     (* a record with memory of its own *)
+| WSlice (a : nat) (chain : list (list nat))                    (* a view of object a through a chain of slices *)
+| WGather (a : nat) (idx : list nat)                            (* a copy of the points idx of object a *)
+| WConv (a : nat) (fmt : Z) (plain : list (string * list Z))    (* from_point_record / convert: zeros, then copy_fields_from *)
+| WAssign (a : nat) (o : op)                                    (* an operation of the single-record model on object a *)
+| WCopyFrom (a s : nat) (plain : list (string * list Z)).       (* a.copy_fields_from(s), s a live object (maybe of the same memory) *)
+
+(* f = the single-record operation: acts on the points the object addresses; same length: written through;
+   longer: the object gets new memory and shares nothing from then on *)
+Definition apply_obj (w : world) (a : nat) (f : Z -> prec -> prec * option err) : world * option err :=
+  let k := fst (obj_at w a) in
+  let pos := snd (obj_at w a) in
+  let fmt := fst (buf_at w k) in
+  let r := snd (buf_at w k) in
+  let res := f fmt (gather r pos) in
+  if Nat.eqb (rec_len (fst res)) (length pos)
+  then ((upd (fst w) k (fmt, scatter r pos (fst res)), snd w), snd res)
+  else ((fst w ++ [(fmt, fst res)], upd (snd w) a (length (fst w), seq 0 (rec_len (fst res)))), snd res).
+
+Definition wstep (w : world) (o : wop) : world * option err :=
+  match o with
+  | WNew fmt r => ((fst w ++ [(fmt, r)], snd w ++ [(length (fst w), seq 0 (rec_len r))]), None)
+  | WSlice a chain =>
+    let pos := snd (obj_at w a) in
+    ((fst w, snd w ++ [(fst (obj_at w a), view_sub pos (view_chain (length pos) chain))]), None)
+  | WGather a idx =>
+    let pos := snd (obj_at w a) in
+    let b := buf_at w (fst (obj_at w a)) in
+    ((fst w ++ [(fst b, gather (snd b) (view_sub pos idx))], snd w ++ [(length (fst w), seq 0 (length idx))]), None)
+  | WConv a fmt' plain =>
+    let res := step fmt' (zero_rec fmt' (length (snd (obj_at w a)))) (OCopy (obj_fmt w a) (obj_read w a) plain) in
+    match snd res with
+    | None => ((fst w ++ [(fmt', fst res)], snd w ++ [(length (fst w), seq 0 (rec_len (fst res)))]), None)
+    | Some e => (w, Some e)
+    end
+  | WAssign a o => apply_obj w a (fun fmt g => step fmt g o)
+  | WCopyFrom a s plain => apply_obj w a (fun fmt g => step fmt g (OCopy (obj_fmt w s) (obj_read w s) plain))
+  end.
+
+Fixpoint wrun (w : world) (ops : list wop) : list (world * option err) :=
+  match ops with
+  | [] => []
+  | o :: t => let s := wstep w o in s :: wrun (fst s) t
+  end.
+
+(* the object an operation assigns to (None: the operation creates an object) *)
+Definition wop_target (o : wop) : option nat :=
+  match o with WAssign a _ => Some a | WCopyFrom a _ _ => Some a | _ => None end.
+(* the single-record operation it performs there *)
+Definition wop_action (w : world) (o : wop) : Z -> prec -> prec * option err :=
+  match o with
+  | WAssign _ o => fun fmt g => step fmt g o
+  | WCopyFrom _ s plain => fun fmt g => step fmt g (OCopy (obj_fmt w s) (obj_read w s) plain)
+  | _ => fun _ g => (g, None)
+  end.
+
+(* one packed byte of memory / of an object *)
+Definition cell (w : world) (k : nat) (c : string) (p : nat) : Z := nth p (col_get (snd (buf_at w k)) c) 0.
+Definition ocell (w : world) (b : nat) (c : string) (j : nat) : Z := nth j (col_get (obj_read w b) c) 0.
+
+(* well-formed world: every memory is a well-formed record of a known format; every object addresses distinct
+   existing points of an existing memory *)
+Definition wwf (w : world) : Prop :=
+  Forall (fun b : wbuf => In (fst b) known_fmts /\ rec_wf (fst b) (snd b) (rec_len (snd b))) (fst w)
+  /\ Forall (fun o : wobj => (fst o < length (fst w))%nat /\ NoDup (snd o)
+                             /\ Forall (fun i => (i < rec_len (snd (buf_at w (fst o))))%nat) (snd o)) (snd w).
+
+Definition wop_ok (w : world) (o : wop) : Prop :=
+  match o with
+  | WNew fmt r => In fmt known_fmts /\ rec_wf fmt r (rec_len r)
+  | WSlice a chain => (a < length (snd w))%nat /\ chain_ok (length (snd (obj_at w a))) chain
+  | WGather a idx => (a < length (snd w))%nat /\ Forall (fun i => (i < length (snd (obj_at w a)))%nat) idx
+  | WConv a fmt' _ => (a < length (snd w))%nat /\ In fmt' known_fmts
+  | WAssign a _ => (a < length (snd w))%nat
+  | WCopyFrom a _ _ => (a < length (snd w))%nat
+  end.
+
+Fixpoint wrun_ok (w : world) (ops : list wop) : Prop :=
+  match ops with
+  | [] => True
+  | o :: t => wop_ok w o /\ wrun_ok (fst (wstep w o)) t
+  end.
